@@ -1282,33 +1282,65 @@ def rule_fresh_state(model):
 
 
 class _VS(BaseState):
-    def __init__(self, kind='NONE'):
-        self.kind = kind
+    def __init__(self, env=None):
+        self.env = dict(env or {})
 
     def key(self):
-        return (self.kind,)
+        return tuple(sorted(self.env.items()))
 
     def copy(self):
-        n = _VS(self.kind)
+        n = _VS(self.env)
         n.trace = self.trace
         return n
 
 
 class _StateOriginDomain(Domain):
-    """Where does the expansion state come from when a click is applied
-    to it: built for this tree (FRESH), taken from the request (DECODED),
-    or taken from the request and checked to be about this tree
-    (VALIDATED)?"""
+    """Where does an expansion state come from when a click is applied to
+    it: built for this tree (FRESH), taken from the request (DECODED),
+    taken from the request and checked to be about this tree (VALIDATED),
+    or handed in by the caller (PARAM:<i>)?  Helpers are summarised by the
+    kinds they return and by the parameters they apply clicks to."""
 
-    def __init__(self, var):
-        self.var = var
+    def __init__(self, model, fi, summaries, appliers, tracked=None):
+        self.model, self.fi = model, fi
+        self.summaries, self.appliers = summaries, appliers
         self.applied = {}
+        self.returned = set()
+        self.tracked = tracked
 
-    def _is_root_test(self, t):
-        return isinstance(t, ast.Compare) and len(t.ops) == 1 and any(
-            isinstance(y, ast.Subscript) and isinstance(
-                y.value, ast.Subscript) and norm(y.value.value) == self.var
-            for y in [t.left] + t.comparators)
+    def kind(self, e, st):
+        if isinstance(e, (ast.Tuple, ast.List)):
+            return 'FRESH'
+        if isinstance(e, ast.Name):
+            return st.env.get(e.id, 'OTHER')
+        if isinstance(e, ast.Call):
+            for t in self.model.resolve_callee(e.func, self.fi):
+                if t[0] == 'func' and t[1].where in self.summaries:
+                    ks = self.summaries[t[1].where]
+                    if ks and ks <= {'FRESH', 'VALIDATED'}:
+                        return 'VALIDATED'
+                    if ks:
+                        return 'DECODED'
+            if any(norm(a) in st.env for a in e.args):
+                # state = decode_seq(state): same origin
+                return next(st.env[norm(a)] for a in e.args
+                            if norm(a) in st.env)
+            return 'DECODED'
+        if isinstance(e, ast.Subscript):
+            return 'DECODED'
+        if isinstance(e, ast.IfExp):
+            a_, b_ = self.kind(e.body, st), self.kind(e.orelse, st)
+            return a_ if a_ == b_ else 'DECODED'
+        return 'OTHER'
+
+    def _root_var(self, t):
+        if isinstance(t, ast.Compare) and len(t.ops) == 1:
+            for y in [t.left] + t.comparators:
+                if isinstance(y, ast.Subscript) and isinstance(
+                        y.value, ast.Subscript) and isinstance(
+                        y.value.value, ast.Name):
+                    return y.value.value.id
+        return None
 
     def raises(self, node, st):
         out = []
@@ -1320,35 +1352,44 @@ class _StateOriginDomain(Domain):
         return sorted(set(out))
 
     def branch(self, test, st):
-        if self._is_root_test(test):
+        v = self._root_var(test)
+        if v is not None:
             ok = st.copy()
-            ok.kind = 'VALIDATED' if st.kind == 'DECODED' else st.kind
+            if st.env.get(v) == 'DECODED':
+                ok.env[v] = 'VALIDATED'
             neq = isinstance(test.ops[0], ast.NotEq)
             return [(neq, st), (not neq, ok)]
         return [(True, st), (False, st)]
 
     def effects(self, stmt, st):
         for c in ast.walk(stmt):
-            if isinstance(c, ast.Call) and \
-                    norm(c.func).split('.')[-1] == 'apply_diff' and c.args \
-                    and norm(c.args[0]) == self.var:
-                rec = self.applied.setdefault(id(c), [c, set()])
-                rec[1].add(st.kind)
-        if isinstance(stmt, ast.Assign) and any(
-                isinstance(t, ast.Name) and t.id == self.var
-                for t in stmt.targets):
-            v = stmt.value
-            st = st.copy()
-            if isinstance(v, (ast.Tuple, ast.List)):
-                st.kind = 'FRESH'
-            elif isinstance(v, ast.Call) and self.var in [
-                    norm(a) for a in v.args]:
-                pass                      # state = decode_seq(state)
-            elif isinstance(v, ast.Name) and v.id == self.var:
-                pass
+            if not isinstance(c, ast.Call):
+                continue
+            idxs = []
+            if norm(c.func).split('.')[-1] == 'apply_diff':
+                idxs = [0]
             else:
-                st.kind = 'DECODED'
+                for t in self.model.resolve_callee(c.func, self.fi):
+                    if t[0] == 'func' and t[1].where in self.appliers:
+                        idxs = sorted(self.appliers[t[1].where])
+            for i in idxs:
+                if i < len(c.args) and isinstance(c.args[i], ast.Name):
+                    rec = self.applied.setdefault(id(c), [c, set()])
+                    rec[1].add(st.env.get(c.args[i].id, 'OTHER'))
+        if isinstance(stmt, ast.Assign) and len(stmt.targets) == 1 and \
+                isinstance(stmt.targets[0], ast.Name) and (
+                    self.tracked is None or
+                    stmt.targets[0].id in self.tracked):
+            k = self.kind(stmt.value, st)
+            st = st.copy()
+            st.env[stmt.targets[0].id] = k
         return st
+
+    def on_return(self, node, st):
+        if node.value is not None:
+            self.returned.add(self.kind(node.value, st))
+        return self.raises(node.value, st) if node.value is not None \
+            else [], st
 
 
 def rule_state_checked_first(model):
@@ -1357,31 +1398,108 @@ def rule_state_checked_first(model):
                    '(cookie), the test that its root is this tree\'s root -- '
                    'and its replacement by a fresh state otherwise -- comes '
                    'before the expand / collapse diff is applied, on every '
-                   'path')
-    fi = model.func('TreeTag', 'tpRender')
-    calls = [c for c in own_nodes(fi.node) if isinstance(c, ast.Call)
-             and norm(c.func).split('.')[-1] == 'apply_diff' and c.args
-             and isinstance(c.args[0], ast.Name)]
-    if not calls:
-        raise AnalysisError('C20.R12: apply_diff calls not found in '
-                            'tpRender')
-    var = calls[0].args[0].id
-    dom = _StateOriginDomain(var)
-    it = Interp(dom, max_states=200000)
-    it.run(fi.node, _VS())
-    if it.overflow:
-        raise AnalysisError('C20.R12: state budget exceeded in tpRender')
-    if not dom.applied:
-        raise AnalysisError('C20.R12: no apply_diff call was reached')
-    for c, kinds in dom.applied.values():
-        bad = 'DECODED' in kinds
-        r.instance(fi.where, c, 'applied to: ' + '/'.join(sorted(kinds)))
-        if bad:
-            r.finding(fi.where, c, 'the click is applied to a state taken '
-                      'from the request before it was checked to belong to '
-                      'this tree: with a cookie written by another tree the '
-                      'click lands in that foreign state and is thrown away '
-                      'with it when the check follows', node=c, ctx=fi)
+                   'path (typestate FRESH / DECODED / VALIDATED, helpers '
+                   'summarised)')
+    top = model.func('TreeTag', 'tpRender')
+    clo = [f for f in model.closure(top, depth=4)
+           if f.module.short == 'TreeTag']
+    # only the functions and the locals a state passes through
+    def calls_of(f):
+        return [c for c in own_nodes(f.node) if isinstance(c, ast.Call)]
+
+    def callee(f, c):
+        for t in model.resolve_callee(c.func, f):
+            if t[0] == 'func' and t[1] in clo:
+                return t[1]
+        return None
+    tracked = {}
+    for f in clo:
+        names = {c.args[0].id for c in calls_of(f)
+                 if norm(c.func).split('.')[-1] == 'apply_diff' and c.args
+                 and isinstance(c.args[0], ast.Name)}
+        if names:
+            tracked[f.where] = names
+    for _ in range(4):
+        grew = False
+        for f in clo:
+            tr = tracked.get(f.where)
+            if tr is None:
+                continue
+            size0 = len(tr)
+            for x in own_nodes(f.node):
+                if isinstance(x, ast.Assign) and len(x.targets) == 1 and \
+                        isinstance(x.targets[0], ast.Name) and \
+                        x.targets[0].id in tr:
+                    if isinstance(x.value, ast.Name):
+                        tr.add(x.value.id)
+                    if isinstance(x.value, ast.Call):
+                        g = callee(f, x.value)
+                        if g is not None and g.where not in tracked:
+                            tracked[g.where] = {
+                                y.value.id for y in own_nodes(g.node)
+                                if isinstance(y, ast.Return) and
+                                isinstance(y.value, ast.Name)}
+                            grew = True
+            ps = [i for i, p_ in enumerate(f.params()) if p_ in tr]
+            if ps:
+                for h in clo:
+                    for c in calls_of(h):
+                        if callee(h, c) is f:
+                            t2 = tracked.setdefault(h.where, set())
+                            for i in ps:
+                                if i < len(c.args) and isinstance(
+                                        c.args[i], ast.Name) and \
+                                        c.args[i].id not in t2:
+                                    t2.add(c.args[i].id)
+                                    grew = True
+            grew = grew or len(tr) != size0
+        if not grew:
+            break
+    clo = [f for f in clo if f.where in tracked]
+    summaries = {f.where: set() for f in clo if f is not top}
+    appliers = {}
+    doms = {}
+    for _ in range(4):
+        before = ({k: set(v) for k, v in summaries.items()},
+                  {k: set(v) for k, v in appliers.items()})
+        for f in clo:
+            dom = _StateOriginDomain(model, f, summaries, appliers,
+                                     tracked[f.where])
+            st0 = _VS({p_: f'PARAM:{i}' for i, p_ in enumerate(f.params())
+                       if p_ in tracked[f.where]})
+            it = Interp(dom, max_states=200000)
+            it.run(f.node, st0)
+            if it.overflow:
+                raise AnalysisError(f'C20.R12: state budget in {f.where}')
+            doms[f.where] = (f, dom)
+            if f is not top:
+                summaries[f.where] = {k for k in dom.returned
+                                      if not k.startswith('PARAM')
+                                      and k != 'OTHER'}
+                ps = {int(k.split(':')[1]) for c, ks in dom.applied.values()
+                      for k in ks if k.startswith('PARAM:')}
+                if ps:
+                    appliers[f.where] = ps
+        if before == (summaries, appliers):
+            break
+    n = 0
+    for f, dom in doms.values():
+        for c, kinds in dom.applied.values():
+            kinds = {k for k in kinds if not k.startswith('PARAM')}
+            if not kinds:
+                continue
+            n += 1
+            r.instance(f.where, c, 'applied to: ' + '/'.join(sorted(kinds)))
+            if 'DECODED' in kinds:
+                r.finding(f.where, c, 'the click is applied to a state '
+                          'taken from the request before it was checked to '
+                          'belong to this tree: with a cookie written by '
+                          'another tree the click lands in that foreign '
+                          'state and is thrown away with it when the check '
+                          'follows', node=c, ctx=f)
+    if n < 1:
+        raise AnalysisError('C20.R12: no application of a click to a state '
+                            'of known origin was found')
     return r
 
 
